@@ -106,6 +106,7 @@ type vfQrDial struct {
 	tr               RefCountedQUICTransport
 	conn             *quic.Conn
 	sock             int
+	released         bool
 	ctxCancel        context.CancelFunc
 }
 
@@ -139,9 +140,11 @@ type vfQrRun struct {
 	dials    map[int]*vfQrDial
 	shares   map[int]net.PacketConn
 	shSock   map[int]int
+	shClosed map[int]bool
 	lendTr   []*quic.Transport
 	remotes  []func()
 	routeAsk int
+	newest   [2]any // the user made by the step just executed ("ln"/"dial"/"share", id), nil if it made none
 	passive  bool // confirmation mode, after the deviating step: the model no longer describes the real state
 	noRepair bool // confirmation mode, at the deviating step: do not put the count right
 	viol     []vfQrViolation
@@ -252,7 +255,7 @@ func (r *vfQrRun) start() error {
 		r.led = append(r.led, &vfQrLedger{s: s, idleSince: -1, closedAt: -1})
 	}
 	r.lns, r.lnSock, r.lnAssoc, r.lnOpen = map[int]Listener{}, map[int]int{}, map[int]string{}, map[int]bool{}
-	r.dials, r.shares, r.shSock = map[int]*vfQrDial{}, map[int]net.PacketConn{}, map[int]int{}
+	r.dials, r.shares, r.shSock, r.shClosed = map[int]*vfQrDial{}, map[int]net.PacketConn{}, map[int]int{}, map[int]bool{}
 	opts := []Option{OverrideListenUDP(r.n.listenUDP), OverrideSourceIPSelector(func() (SourceIPSelector, error) {
 		if r.selErr {
 			r.selErr = false
@@ -500,6 +503,46 @@ func (r *vfQrRun) touch(sock int, what string) {
 	l.last = what
 	if l.users == 0 {
 		l.idleSince = r.k
+	}
+}
+
+// dropUsers (confirmation runs): the harness gives back every use it holds - except, if keep is set, the one made by the
+// deviating step - through the ordinary calls
+func (r *vfQrRun) dropUsers(keep [2]any) {
+	ids := func(m map[int]bool) []int {
+		var l []int
+		for id := range m {
+			l = append(l, id)
+		}
+		sort.Ints(l)
+		return l
+	}
+	open := map[int]bool{}
+	for id, o := range r.lnOpen {
+		if o && keep != [2]any{"ln", id} {
+			open[id] = true
+		}
+	}
+	for _, id := range ids(open) {
+		r.exec(vfh.Op{"name": "closeln", "ln": float64(id)})
+	}
+	held := map[int]bool{}
+	for id, d := range r.dials {
+		if !d.released && (d.tr != nil || d.conn != nil) && keep != [2]any{"dial", id} {
+			held[id] = true
+		}
+	}
+	for _, id := range ids(held) {
+		r.exec(vfh.Op{"name": "release", "d": float64(id)})
+	}
+	sh := map[int]bool{}
+	for k := range r.shares {
+		if !r.shClosed[k] && keep != [2]any{"share", k} {
+			sh[k] = true
+		}
+	}
+	for _, k := range ids(sh) {
+		r.exec(vfh.Op{"name": "closeshare", "k": float64(k)})
 	}
 }
 
@@ -778,6 +821,7 @@ func (r *vfQrRun) exec(op vfh.Op) {
 	name := op.Name()
 	gcInstant := false
 	r.tie = false
+	r.newest = [2]any{}
 	switch name {
 	case "listen":
 		nBefore := len(r.led)
@@ -830,6 +874,7 @@ func (r *vfQrRun) exec(op vfh.Op) {
 			}
 			sock := r.modelSock(ln.Addr().(*net.UDPAddr).Port)
 			r.lns[id], r.lnSock[id], r.lnAssoc[id], r.lnOpen[id] = ln, sock, op.S("assoc"), true
+			r.newest = [2]any{"ln", id}
 			first := true
 			for o, open := range r.lnOpen {
 				if o != id && open && r.lnSock[o] == sock {
@@ -954,6 +999,7 @@ func (r *vfQrRun) exec(op vfh.Op) {
 			sock := r.modelSock(port)
 			d.sock = sock
 			r.use(sock, "dial")
+			r.newest = [2]any{"dial", op.I("d")}
 			// Q8
 			if len(allowed) == 0 {
 				if sock <= nBefore {
@@ -978,11 +1024,16 @@ func (r *vfQrRun) exec(op vfh.Op) {
 		if d == nil {
 			break
 		}
+		if d.released {
+			break
+		}
 		if d.conn != nil {
+			d.released = true
 			d.conn.CloseWithError(0, "")
 			synctest.Wait()
 			r.unuse(d.sock, "dialquic-conn-closed")
 		} else if d.tr != nil {
+			d.released = true
 			d.tr.DecreaseCount()
 			synctest.Wait()
 			r.unuse(d.sock, "decreasecount")
@@ -1001,13 +1052,15 @@ func (r *vfQrRun) exec(op vfh.Op) {
 			r.shares[k] = pc
 			r.shSock[k] = r.modelSock(pc.LocalAddr().(*net.UDPAddr).Port)
 			r.use(r.shSock[k], "share")
+			r.newest = [2]any{"share", k}
 			if op.B("ok") && r.shSock[k] != op.I("sock") {
 				r.vm("share-on-unexpected-socket", "shared packet conn socket", op.I("sock"), r.shSock[k])
 			}
 		}
 	case "closeshare":
 		k := op.I("k")
-		if pc := r.shares[k]; pc != nil {
+		if pc := r.shares[k]; pc != nil && !r.shClosed[k] {
+			r.shClosed[k] = true
 			pc.Close()
 			synctest.Wait()
 			r.unuse(r.shSock[k], "nonquic-conn-closed")
@@ -1200,8 +1253,9 @@ type vfQrOutcome struct {
 // after the last step virtual time passes for two GC rounds with the monitors on (confirmation of a deviation).
 var vfQrProgress atomic.Int64 // bubbles completed (watched from outside the bubbles: see the stall watchdog)
 
-func vfQrRunWalk(t *testing.T, conf vfQrConf, cert tls.Certificate, w vfh.Walk, upto int, passiveFrom int) vfQrOutcome {
+func vfQrRunWalk(t *testing.T, conf vfQrConf, cert tls.Certificate, w vfh.Walk, upto int, passiveFrom int, mode string) vfQrOutcome {
 	out := vfQrOutcome{step: -1}
+	var kept [2]any
 	defer vfQrProgress.Add(1)
 	synctest.Test(t, func(t *testing.T) {
 		r := &vfQrRun{t: t, conf: conf, cert: cert}
@@ -1220,6 +1274,9 @@ func vfQrRunWalk(t *testing.T, conf vfQrConf, cert tls.Certificate, w vfh.Walk, 
 				r.v("panic:"+step.Op.Name(), "the call panicked: "+p, "returns", "panic")
 				out.viol, out.l2, out.step, out.executed = r.viol, r.l2, i, i+1
 				return
+			}
+			if i == passiveFrom {
+				kept = r.newest
 			}
 			var st vfQrSt
 			if err := json.Unmarshal(step.State, &st); err != nil {
@@ -1261,6 +1318,18 @@ func vfQrRunWalk(t *testing.T, conf vfQrConf, cert tls.Certificate, w vfh.Walk, 
 			}
 		}
 		if passiveFrom >= 0 {
+			r.passive = true
+			switch mode {
+			case "hold":
+				// every other use is given back: the use made by the deviating step must keep its socket alive
+				if kept == [2]any{} {
+					return
+				}
+				r.dropUsers(kept)
+			case "drop":
+				// every use is given back: every socket must go
+				r.dropUsers([2]any{})
+			}
 			// let time pass: everything that is due must go, nothing in use may go
 			for j := 0; j < 2*conf.GcEvery+conf.MaxUnused+1; j++ {
 				r.exec(vfh.Op{"name": "tick"})
@@ -1313,7 +1382,7 @@ func (b *vfQrBudget) take(key string, max int) bool {
 func vfQrPoolWalk(t *testing.T, res *vfh.Result, inst string, conf vfQrConf, cert tls.Certificate, w vfh.Walk, budget *vfQrBudget) {
 	var out vfQrOutcome
 	for attempt := 0; attempt < 400; attempt++ {
-		out = vfQrRunWalk(t, conf, cert, w, len(w.Steps), -1)
+		out = vfQrRunWalk(t, conf, cert, w, len(w.Steps), -1, "")
 		if !out.retry {
 			break
 		}
@@ -1359,25 +1428,32 @@ func vfQrPoolWalk(t *testing.T, res *vfh.Result, inst string, conf vfQrConf, cer
 	// confirmation of count deviations: same prefix, nothing repaired at the deviating step, then time passes
 	for j, ds := range out.devSteps {
 		key := inst + ":" + out.devKinds[j] + ":" + w.Steps[ds].Op.S("kind") + w.Steps[ds].Op.S("err")
-		if !budget.take(key, 2) {
+		if !budget.take(key, 4) {
 			res.Inc("pool_deviations_not_confirmed_again", 1)
 			continue
 		}
-		var c vfQrOutcome
-		for attempt := 0; attempt < 400; attempt++ {
-			c = vfQrRunWalk(t, conf, cert, w, len(w.Steps), ds)
-			if !c.retry {
-				break
+		// continuations after the deviating step (nothing repaired): "wait": time passes at once; "hold": every other use is given
+		// back first (the use the step made must keep its socket); "drop": every use is given back first (every socket must go)
+		for _, mode := range []string{"wait", "hold", "drop"} {
+			var c vfQrOutcome
+			for attempt := 0; attempt < 400; attempt++ {
+				c = vfQrRunWalk(t, conf, cert, w, ds+1, ds, mode)
+				if !c.retry {
+					break
+				}
 			}
-		}
-		if c.crashed != "" || c.retry || !c.confirmed {
-			res.Inc("pool_confirmations_failed_to_run", 1)
-			continue
-		}
-		res.Inc("pool_confirmation_runs", 1)
-		for _, v := range c.viol {
-			res.AddMismatch(vfh.Mismatch{Class: v.class, What: fmt.Sprintf("[confirmation run: nothing repaired from step %d on, rest of the walk, then time passes] ", ds) + v.what,
-				Walk: w.Walk, Step: c.step, Expected: v.exp, Got: v.got, Prefix: prefix(len(w.Steps)), Cfg: map[string]any{"part": "pool", "instance": inst, "conf": conf, "deviation_at": ds, "then": "ticks"}})
+			if c.crashed != "" || c.retry {
+				res.Inc("pool_confirmations_failed_to_run", 1)
+				continue
+			}
+			if !c.confirmed {
+				continue // (no use to hold)
+			}
+			res.Inc("pool_confirmation_runs", 1)
+			for _, v := range c.viol {
+				res.AddMismatch(vfh.Mismatch{Class: v.class, What: fmt.Sprintf("[confirmation run: nothing repaired at step %d, then %s, then time passes] ", ds, mode) + v.what,
+					Walk: w.Walk, Step: c.step, Expected: v.exp, Got: v.got, Prefix: prefix(ds + 1), Cfg: map[string]any{"part": "pool", "instance": inst, "conf": conf, "deviation_at": ds, "then": mode + ", ticks"}})
+			}
 		}
 	}
 }
